@@ -18,6 +18,8 @@ Clauses
                    rows as the sequence of single execute() calls
   C08.paramstyle   a connection keeps the paramstyle it was created under when snowflake.connector.paramstyle is
                    changed afterwards (cursor made before / after the change, second connection under the new style)
+  C08.caller_params  execute()/executemany() leave the caller's parameter object (tuple, list, dict, list of rows) exactly
+                   as it was (deep copy before, type-strict comparison after) - checked on every binding call of this check
   C08.history      a binding's effect is the value's own, whatever was bound before: for every ordered pair (a, b) of a
                    written-out alphabet of values that Python considers equal although they are different data
                    (1 / True / 1.0 / Decimal('1'), 0 / False / 0.0, Decimal('1.1') / Decimal('1.10'), one instant with
@@ -30,6 +32,9 @@ Clauses
                    placeholder (%, %%, %s, %d, %(x)s, ?, :1) or needs quoting (quote, backslash, $x), every ordered
                    pair (thorough: triple) of statement kinds, on one cursor and on separate cursors: each statement
                    returns / stores the variable's value and the parameter's value, nothing raises
+                   And re-use of the SAME parameter object (tuple / list / dict): execute twice, executemany over
+                   [row, row], executemany then execute with one of its rows - the later use behaves exactly like the
+                   first and like an equal object built afresh
 
 Not demanded (ambiguous or outside the statement)
   * NaN / Infinity, bytes, the `numeric` paramstyle, lists under qmark (the connector's qmark list = array binding),
@@ -427,6 +432,54 @@ def case_class(style, pos, fam, v):
     return f"pos={pos},bind={bind_kind(style)},val={vclass(fam, v)}"
 
 
+# ---- the caller's parameter object is the caller's -------------------------------------------------------------------------
+# Every execute()/executemany() of this check that carries parameters goes through guarded(): the parameter object is
+# deep-copied before the call and compared type-strictly (repr, container types included) afterwards, whether the call
+# returned or raised.  Findings are collected per process and reported by work() after the item (clause
+# C08.caller_params, class = container kind x paramstyle).
+_CALLS: dict = {}  # class -> [calls, calls that changed the object]
+_MUTATED: list = []  # (class, detail)
+
+
+def container_kind(params, many=False):
+    if many:
+        if not isinstance(params, (list, tuple)) or not params:
+            return "rows:none"
+        return f"rows:{type(params).__name__}_of_{type(params[0]).__name__}"
+    return type(params).__name__
+
+
+def guarded(style, sql, params, call, many=False):
+    import copy
+
+    if params is None:
+        return call()
+    snap = copy.deepcopy(params)
+    cls = f"container={container_kind(params, many)},style={style}"
+    try:
+        return call()
+    finally:
+        changed = type(params) is not type(snap) or repr(params) != repr(snap)
+        m = _CALLS.setdefault(cls, [0, 0])
+        m[0] += 1
+        if changed:
+            m[1] += 1
+            _MUTATED.append((cls, {"style": style, "call": "executemany" if many else "execute", "sql": sql, "parameter_object_before": repr(snap), "parameter_object_after": repr(params)}))  # fmt: skip
+
+
+def drain_guard(acc, item, tier):
+    for cls, (n, bad) in sorted(_CALLS.items()):
+        m = acc.classes.setdefault(("C08.caller_params", cls), [0, 0])
+        m[0] += n
+        m[1] += bad
+        acc.count("parameter_objects_compared", n)
+    for cls, detail in _MUTATED:
+        it = [x for x in item if not isinstance(x, dict)]
+        acc.violation("C08.caller_params", cls, detail, {"kind": "mutitem", "item": it, "tier": tier})
+    _CALLS.clear()
+    del _MUTATED[:]
+
+
 # ---- real side ---------------------------------------------------------------------------------------------------------------
 def _set_module_style(name):
     import snowflake.connector as sc
@@ -505,10 +558,7 @@ class Env:
 
         cur = cur or self.cur
         try:
-            if params is None:
-                cur.execute(sql)
-            else:
-                cur.execute(sql, params)
+            guarded(self.style, sql, params, lambda: cur.execute(sql) if params is None else cur.execute(sql, params))
             return ("ok", cur.fetchall())
         except Exception as e:  # noqa: BLE001
             x = exc_info(e)
@@ -760,7 +810,7 @@ def run_many(env, style, kind, stmt, F, sets, acc, replay):
 
     env.load("tg", tg0)
     try:
-        env.cur.executemany(sql, seqparams)
+        guarded(style, sql, seqparams, lambda: env.cur.executemany(sql, seqparams), many=True)
         out = ("ok",)
     except Exception as e:  # noqa: BLE001
         x = exc_info(e)
@@ -1060,7 +1110,7 @@ def seq_many(env, style, cur, sets):
     seqparams = [{"i": i, "v": v} if kind == "dict" else STYLES[style][2]((i, v)) for i, v in sets]
     env.load("tg", [])
     try:
-        cur.executemany(sql, seqparams)
+        guarded(style, sql, seqparams, lambda: cur.executemany(sql, seqparams), many=True)
         out = ("ok",)
     except Exception as e:  # noqa: BLE001
         x = exc_info(e)
@@ -1236,7 +1286,105 @@ def vseq(item, acc, tier):
     return n
 
 
-WORK = {"grid": grid, "pairs": pairs, "many": many, "pstyle": pstyle, "seqbase": seqbase, "seq": seq, "seq3": seq3, "vseq": vseq}
+# ---- histories: the SAME parameter object bound again ---------------------------------------------------------------------
+# execute twice with one tuple / list / dict object; executemany over [row, row] with one row object; executemany and
+# then execute with one of its row objects.  The later use must behave exactly like the first, and like a separately
+# built equal object (repr-strict), for every container kind x paramstyle x value of the history alphabet and a few
+# strings that need quoting.
+REBIND_EXTRA = [("sq2", "it's"), ("sbs", "a\\b"), ("sph", "%s ?")]
+CONTAINERS = {"pyformat_seq": ("tuple", "list"), "format_seq": ("tuple", "list"), "qmark": ("tuple", "list"), "pyformat_dict": ("dict",)}
+
+
+def rebind_values(tier, style):
+    vals = [SEQ[i] for i in seq_indexes(tier, style) if not isinstance(SEQ[i][1], tuple)]
+    return vals + REBIND_EXTRA
+
+
+def mk_params(container, names, values):
+    if container == "dict":
+        return dict(zip(names, values))
+    return tuple(values) if container == "tuple" else list(values)
+
+
+def rebind(item, acc, tier):
+    """item = ('rebind', style, container)"""
+    import copy
+
+    _, style, container = item
+    env = Env(style, "str")
+    n = 0
+
+    def verdict(hist, pos, v, got, want, extra):
+        nonlocal n
+        n += 1
+        acc.count("evaluations")
+        acc.obs((style, container, hist, pos, repr(v), repr(got)))
+        acc.outcome(("rebind", hist, pos, bind_kind(style), repr(got)[:60]))
+        acc.nontrivial((style, container, hist, pos, repr(v)))
+        cls = f"hist=rebind:{hist},pos={pos},container={container},style={style},val={tclass(v)}"
+        failed = repr(got) != repr(want)
+        acc.member("C08.history", cls, failed)
+        if failed:
+            detail = dict(extra, style=style, container=container, history=hist, position=pos, value=v, later_use=got, first_use_or_equal_fresh_object=want)  # fmt: skip
+            acc.violation("C08.history", cls, detail, {"kind": "mutitem", "item": list(item), "tier": tier})
+
+    try:
+        bi = Binder(style)
+        ins = f"insert into tg (id, v) values ({bi.ph(0, 'i')}, {bi.ph(0, 'v')})"
+        for name, v in rebind_values(tier, style):
+            for pos in SEQ_POS_ORDER:
+                conn = _connect(env)
+                cur = conn.cursor()
+                b = Binder(style)
+                sql = SEQ_POS[pos](b.ph(v))
+                obj = mk_params(container, ["v"], [v])
+                obs = []
+                for _ in range(2):
+                    env.load("tg", [])
+                    obs.append((env.execute(sql, obj, cur), env.read("tg")))
+                acc.count("statements_executed", 2)
+                verdict("execute_twice", pos, v, obs[1], obs[0], {"sql": sql, "parameter_object": repr(mk_params(container, ["v"], [v]))})
+                conn.close()
+            # own effect of one INSERT of the row, with an object used once
+            conn = _connect(env)
+            env.load("tg", [])
+            env.execute(ins, mk_params(container, ["i", "v"], [101, v]), conn.cursor())
+            own = env.read("tg")
+            conn.close()
+            conn = _connect(env)
+            row = mk_params(container, ["i", "v"], [101, v])
+            got = _many(env, style, conn.cursor(), ins, [row, row])
+            verdict("executemany_same_row_twice", "insv", v, got, (("ok",), own + own), {"sql": ins, "row": repr(copy.deepcopy(mk_params(container, ["i", "v"], [101, v])))})  # fmt: skip
+            conn.close()
+            conn = _connect(env)
+            cur = conn.cursor()
+            row = mk_params(container, ["i", "v"], [101, v])
+            other = mk_params(container, ["i", "v"], [102, "z"])
+            first = _many(env, style, cur, ins, [row, other])
+            out = env.execute(ins, row, cur)
+            got = (first[0], out[0], env.read("tg"))
+            verdict("executemany_then_execute_row", "insv", v, got, (("ok",), "ok", own + own + [(102, "z")]), {"sql": ins})
+            conn.close()
+            acc.count("statements_executed", 6)
+    finally:
+        env.close()
+    return n
+
+
+def _many(env, style, cur, sql, seqparams):
+    from mc.util import exc_info
+
+    env.load("tg", [])
+    try:
+        guarded(style, sql, seqparams, lambda: cur.executemany(sql, seqparams), many=True)
+        out = ("ok",)
+    except Exception as e:  # noqa: BLE001
+        x = exc_info(e)
+        out = ("err", x[1], x[4][:120])
+    return (out, env.read("tg"))
+
+
+WORK = {"grid": grid, "pairs": pairs, "many": many, "pstyle": pstyle, "seqbase": seqbase, "seq": seq, "seq3": seq3, "vseq": vseq, "rebind": rebind}
 
 
 def work(item, acc, tier):
@@ -1249,6 +1397,7 @@ def work(item, acc, tier):
     try:
         return WORK[item[0]](item, acc, tier)
     finally:
+        drain_guard(acc, item, tier)
         if sc.paramstyle != before:  # belt and braces: the module attribute is always restored
             sc.paramstyle = before
             raise core.HarnessError(f"snowflake.connector.paramstyle not restored by {item!r}")
@@ -1292,7 +1441,8 @@ def run(ctx: core.Ctx):
         "the same cursor / a second cursor / a second connection (thorough) at 3 identity-revealing positions, in one execute, in one executemany "
         "(thorough: all ordered triples of 9 values), each compared by repr with b's own effect on a fresh instance; "
         "variable histories: 16 session-variable values x parameter values x 4 styles x all ordered pairs (thorough: and triples) of statement kinds "
-        "(select $v / select $v, p / insert $v, p / thorough: insert $v) after one SET on a fresh connection x (one cursor | a cursor per statement), judged against the model. Quick tier: strings reduced to the breaker list except at "
+        "(select $v / select $v, p / insert $v, p / thorough: insert $v) after one SET on a fresh connection x (one cursor | a cursor per statement), judged against the model; re-binding the same parameter object (execute twice / executemany [row, row] / executemany then execute a row) "
+        "x container kind (tuple, list, dict) x style x history values; every binding call of the whole check also compares the caller's parameter object with a deep copy taken before. Quick tier: strings reduced to the breaker list except at "
         "positions sel/ins/where/like_pat/comment_lit, pairs over the breaker list. Non-trivial = case whose value is "
         "not NULL/empty/zero (value positions) or whose expected row set is non-empty (matching positions)."
     )
@@ -1316,7 +1466,9 @@ def run(ctx: core.Ctx):
     res = res + ctx.pmap(work, seq_items, chunk=1)
     var_items = [("vseq", style, vvi) for style in STYLE_ORDER for vvi in range(len(VARVALS))]
     res = res + ctx.pmap(work, var_items, chunk=1)
-    items = items + base_items + seq_items + var_items
+    rebind_items = [("rebind", style, c) for style in STYLE_ORDER for c in CONTAINERS[style]]
+    res = res + ctx.pmap(work, rebind_items, chunk=1)
+    items = items + base_items + seq_items + var_items + rebind_items
     ctx.exhaustive = True
     kinds = {}
     for it, n in res:
@@ -1365,6 +1517,12 @@ def replay(payload):
         work(("pstyle", r["made"], r["now"], r["when"]), acc, "quick")
     elif k == "vseq":
         vseq(("vseq", r["style"], r["vvi"]), acc, r["tier"])
+    elif k == "mutitem":
+        it = list(r["item"])
+        if it[0] in ("seq", "seq3"):
+            st = it[1]
+            it = it[:3] + [{vi: seqbase(("seqbase", st, vi), core.Acc(), r["tier"]) for vi in seq_indexes(r["tier"], st)}]
+        work(tuple(it), acc, r["tier"])
     elif k in ("seq", "seq3"):
         idx = [r["ai"], r["bi"]] + ([r["ci"]] if k == "seq3" else [])
         base = {vi: seqbase(("seqbase", r["style"], vi), core.Acc(), "thorough") for vi in sorted(set(idx))}
@@ -1382,7 +1540,7 @@ def replay(payload):
     want = (payload["clause"], payload["class"])
     hit = want in acc.viol
     for (clause, cls), v in sorted(acc.viol.items()):
-        if (clause, cls) == want or k not in ("pstyle", "seq3", "vseq"):
+        if (clause, cls) == want or k not in ("pstyle", "seq3", "vseq", "mutitem"):
             print(f"{clause} / {cls}")
             print(json.dumps(v["detail"], indent=1, sort_keys=True, default=repr)[:4000])
     print("verdict:", "VIOLATION reproduced" if hit else "ok (not reproduced)")
